@@ -288,11 +288,11 @@ impl Body {
         let len_auth = if option & OPT_AUTH_LEN != 0 {
             // v2ray-core derives the length cipher from the *request* key and IV in both directions
             let k = vmess_kdf16(req_key, &[b"auth_len"]);
-            Some(Counted::new(security, &k, req_iv, "vmess-len"))
+            Some(Counted::new(security, &k, req_iv, if dir == Direction::Request { "vmess-len-request" } else { "vmess-len-response" }))
         } else {
             None
         };
-        Self { payload: Counted::new(security, &key, &iv, "vmess-payload"), len_auth, shake, masking, padding, buf: vec![], pending: None, eof: false, chunks: 0 }
+        Self { payload: Counted::new(security, &key, &iv, if dir == Direction::Request { "vmess-payload-request" } else { "vmess-payload-response" }), len_auth, shake, masking, padding, buf: vec![], pending: None, eof: false, chunks: 0 }
     }
 
     fn size_field_len(&self) -> usize {
